@@ -461,7 +461,13 @@ class World:
         if ratio != self.params.field("pairing", 576):
             out.append("I2: e(a0,g)/e(g3*prod h_i^v_i, a1) != e(g2,g1) for the accumulated pattern")
         if got is not None:
+            # large parameter sets (the slot count as an operand): the per-slot pairing check is made on the boundary slots only
+            keep = None
+            if self.l > 8:
+                keep = set(got[:2] + got[-2:]) | {i for i in got if i in (7, 8, 15, 16, 17, 31, 32, 33, 63, 64, 65, 127, 128, 255, 256)}
             for j, i in enumerate(got):
+                if keep is not None and i not in keep and i < self.l:
+                    continue
                 if i >= self.l:
                     out.append("I1: free-slot index %d out of range" % i)
                     continue
@@ -482,6 +488,26 @@ class World:
                 out.append("I3: the master key does not decrypt")
                 break
         return out
+
+
+LONG_L = 65
+LONG_N = [4, 5, 8, 9, 16, 17, 32, 33, 64, 65]
+
+
+def long_list(n, l=LONG_L, names=("v1", "v2"), shift=0):
+    """attribute list with n valued entries spread over l slots so that the lowest and the highest slot are used (the list LENGTH is an
+    operand: batch sizes, narrow counters and bit masks over entries break at its boundary values)"""
+    if n >= l:
+        idx = list(range(l))
+    else:
+        idx = sorted(set([0, l - 1] + [(i * (l - 1)) // max(1, n - 1) for i in range(n)]))[:n]
+        k = 1
+        while len(idx) < n:
+            if k not in idx:
+                idx.append(k)
+            k += 1
+        idx = sorted(idx)
+    return {"e": [[i, names[(j + shift) % len(names)]] for j, i in enumerate(idx)], "omit": False}
 
 
 def pat_str(p):
